@@ -60,6 +60,7 @@ type HistOpts struct {
 	WSave         int    // weight of explicit SaveToStore operations (needs StoreDir)
 	StoreDir      string // if set the runner persists to a real JsonDataStore in this directory (wrapped by a recording store)
 	RichVars      bool   // job variables are arbitrary JSON values
+	Retention     bool   // pipelines get a retention_count (1-2): saves remove finished jobs
 	HTTP          bool // observe (and drive half of the requests) through the real HTTP handler with a valid token
 }
 
@@ -124,6 +125,7 @@ type seqRun struct {
 	removed      []gen.PipeSpec // pipelines removed by a reload (may be re-added)
 	fired        map[string]bool // jobs whose delay was fired by the driver
 	everRemoved  map[string]bool // pipelines that did not remain defined throughout the history
+	maxConc      map[string]int  // largest concurrency in force for a pipeline during the history
 	rec          *core.RecStore
 	snapDir      string
 }
@@ -182,6 +184,11 @@ func RunHistory(seed int64, o HistOpts) *HistResult {
 	r := rand.New(rand.NewSource(seed))
 	res := &HistResult{Seed: seed, Situations: map[string]map[string]struct{}{}, Evaluations: map[string]int{}}
 	specs := GenSpecs(r, o)
+	if o.Retention {
+		for i := range specs {
+			specs[i].Def.RetentionCount = 1 + r.Intn(2)
+		}
+	}
 	var rec *core.RecStore
 	var st store.DataStore
 	var outStore taskctl.OutputStore
@@ -219,6 +226,7 @@ func RunHistory(seed int64, o HistOpts) *HistResult {
 	if o.HTTP {
 		q.api = core.NewAPI(sys.R, nil, "0123456789abcdef-harness-secret", false)
 	}
+	q.noteConcurrency()
 	q.view = sys.Snapshot(-1)
 	for q.step = 1; q.step <= o.MaxOps && !q.dead; q.step++ {
 		q.doOp()
@@ -379,7 +387,39 @@ func (q *seqRun) doOp() {
 		q.opReload()
 	case opSave:
 		q.journal("save")
+		live := q.view
 		q.sys.Save(0)
+		// the snapshot handed to the store is the reported state of that (quiescent) instant
+		if saves := q.rec.Saves(); len(saves) > 0 {
+			last := saves[len(saves)-1]
+			q.res.sit("C10", fmt.Sprintf("explicit save of %d jobs compared with the reported state", min(len(live.Jobs), 8)))
+			for i := range live.Jobs {
+				lj := &live.Jobs[i]
+				pj, ok := last.Jobs[lj.ID]
+				if !ok {
+					q.find([]string{"C10", "C12"}, "C10:snapshot-differs-from-reported-state", "%s is reported but missing in the snapshot handed to the store", q.jn(lj.ID))
+					continue
+				}
+				var diffs []string
+				if pj.Completed != lj.Completed || pj.Canceled != lj.Canceled {
+					diffs = append(diffs, fmt.Sprintf("completed/canceled %v/%v vs reported %v/%v", pj.Completed, pj.Canceled, lj.Completed, lj.Canceled))
+				}
+				if (pj.Start != nil) != (lj.Start != nil) || (pj.End != nil) != (lj.End != nil) {
+					diffs = append(diffs, fmt.Sprintf("start/end set %v/%v vs reported %v/%v", pj.Start != nil, pj.End != nil, lj.Start != nil, lj.End != nil))
+				}
+				if (pj.LastError != nil) != lj.HasError {
+					diffs = append(diffs, fmt.Sprintf("lastError set %v vs reported %v", pj.LastError != nil, lj.HasError))
+				}
+				for ti, t := range lj.Tasks {
+					if ti < len(pj.Tasks) && (pj.Tasks[ti].Status != t.Status || pj.Tasks[ti].Name != t.Name) {
+						diffs = append(diffs, fmt.Sprintf("task %s status %q vs reported %q", t.Name, pj.Tasks[ti].Status, t.Status))
+					}
+				}
+				if len(diffs) > 0 {
+					q.find([]string{"C10"}, "C10:snapshot-differs-from-reported-state", "the snapshot saved at step %d holds %s differently from what the runner reports at that instant: %v", q.step, q.jn(lj.ID), diffs)
+				}
+			}
+		}
 		q.settle(nil)
 	}
 }
@@ -442,6 +482,7 @@ func (q *seqRun) opReload() {
 	q.journal("reload: %s%s", strings.Join(descs, "; "), map[bool]string{true: " (while " + q.jn(parked) + " is parked between tasks)", false: ""}[parked != ""])
 	q.res.sit("C16", "reload "+strings.Join(descs, ";")[:min(40, len(strings.Join(descs, ";")))])
 	q.reloaded = true
+	q.noteConcurrency()
 	q.sys.Replace(0, gen.BuildDefs(q.specs), strings.Join(descs, "; "))
 	q.m.SetCfg(gen.ModelCfg(q.specs))
 	after := q.sys.Snapshot(-1)
@@ -729,11 +770,20 @@ func (q *seqRun) compare(v core.View) {
 		seen[v.Jobs[i].ID]++
 	}
 	for _, j := range q.jobs {
-		if seen[j.ID] != 1 {
-			q.find([]string{"C15", "C03"}, "C15:job-missing-or-duplicated", "J%d is reported %d times in the job list", j.Ord, seen[j.ID])
+		if seen[j.ID] == 1 {
+			continue
 		}
+		if q.o.Retention && seen[j.ID] == 0 {
+			// retention may only have removed finished jobs: every accepted job is reported until then
+			if mj := q.m.Jobs[j.ID]; mj != nil && (mj.State == model.JFinished || mj.State == model.JCanceled) {
+				continue
+			}
+			q.find([]string{"C15", "C12"}, "C15:unfinished-job-no-longer-reported", "J%d is waiting or running but is not reported any more (removed by a save with retention?)", j.Ord)
+			continue
+		}
+		q.find([]string{"C15", "C03"}, "C15:job-missing-or-duplicated", "J%d is reported %d times in the job list", j.Ord, seen[j.ID])
 	}
-	if len(v.Jobs) != len(q.jobs) {
+	if len(v.Jobs) > len(q.jobs) || (!q.o.Retention && len(v.Jobs) != len(q.jobs)) {
 		q.find([]string{"C15"}, "C15:unknown-jobs-reported", "%d jobs reported, %d accepted", len(v.Jobs), len(q.jobs))
 	}
 	flags := q.listFlags()
@@ -761,7 +811,7 @@ func (q *seqRun) compare(v core.View) {
 		mWait := q.m.WaitingIDs(p)
 		cfg := q.m.Cfg[p]
 		q.res.sit("C01", fmt.Sprintf("%s R%d W%d", classOf(spec), len(mRun), len(mWait)))
-		if len(obsExec) > cfg.Concurrency {
+		if len(obsExec) > cfg.Concurrency && !q.reloaded {
 			q.find([]string{"C01"}, "C01:more-executing-than-concurrency", "pipeline %s: %d jobs executing %s with concurrency %d", p, len(obsExec), q.jns(obsExec), cfg.Concurrency)
 		}
 		if !reflect.DeepEqual(obsExec, mRun) && !(len(obsExec) == 0 && len(mRun) == 0) {
@@ -774,6 +824,10 @@ func (q *seqRun) compare(v core.View) {
 				}
 			}
 			for _, id := range obsExec {
+				if mj := q.m.Jobs[id]; mj != nil && mj.State == model.JWaiting && !mj.TimerPending && len(mRun) >= cfg.Concurrency {
+					// started although the limit in force (possibly changed by a reload) was reached
+					q.find([]string{"C01", "C16"}, "C01:job-started-while-limit-in-force-was-reached", "pipeline %s: %s was started while %s were executing and the concurrency in force is %d", p, q.jn(id), q.jns(mRun), cfg.Concurrency)
+				}
 				if mj := q.m.Jobs[id]; mj != nil && mj.State == model.JWaiting && mj.TimerPending {
 					q.find([]string{"C07"}, "C07:started-before-delay-expired", "pipeline %s: %s executes although its start delay has not expired", p, q.jn(id))
 				}
@@ -1147,4 +1201,15 @@ func strandProps(reloaded bool) []string {
 		return []string{"C16", "C03"}
 	}
 	return []string{"C03", "C07"}
+}
+
+func (q *seqRun) noteConcurrency() {
+	if q.maxConc == nil {
+		q.maxConc = map[string]int{}
+	}
+	for _, sp := range q.specs {
+		if sp.Def.Concurrency > q.maxConc[sp.Name] {
+			q.maxConc[sp.Name] = sp.Def.Concurrency
+		}
+	}
 }
